@@ -1359,12 +1359,12 @@ PPL::Grid::add_recycled_grid_generators(Grid_Generator_System& gs) {
     return;
   }
 
-  if (!marked_empty()) {
+  if (!marked_empty()
+      && (generators_are_up_to_date() || update_generators())) {
     // The grid contains at least one point.
 
-    if (!generators_are_up_to_date()) {
-      update_generators();
-    }
+    // Adjust `gs' to the right dimension.
+    gs.set_space_dimension(space_dim);
     normalize_divisors(gs, gen_sys);
 
     gen_sys.insert(gs, Recycle_Input());
